@@ -414,8 +414,8 @@ impl Cmp<'_> {
         let agree = match (c, d) {
             (Obs::Ok(a), Obs::Ok(b)) => {
                 if a != b && cs == ds {
-                    cs.push_str("/payload-A");
-                    ds.push_str("/payload-B");
+                    cs = format!("{},payload-A)", cs.trim_end_matches(')'));
+                    ds = format!("{},payload-B)", ds.trim_end_matches(')'));
                 }
                 a == b
             }
@@ -512,6 +512,8 @@ impl Drop for Sys {
 }
 
 static CHECK_ALL: AtomicBool = AtomicBool::new(false);
+/// Debug aid (`C09_NO_COMPARE=1`): count states / transitions only; such a run never gives a verdict.
+static NO_COMPARE: AtomicBool = AtomicBool::new(false);
 static CHECKED: Mutex<Option<HashSet<u128>>> = Mutex::new(None);
 static MAKE_NS: AtomicU64 = AtomicU64::new(0);
 static MAKES: AtomicU64 = AtomicU64::new(0);
@@ -594,11 +596,12 @@ impl Sys {
     // -- the node's post-fetch path (radicle-node/src/worker/fetch.rs: cache_cobs) ------------
 
     /// Transcription of `cache_cobs`: for each updated ref that names a COB, `update_or_remove`.
-    fn cache_cobs(&self, refs: &[git::RefString]) -> Result<(), String> {
+    fn cache_cobs(&self, refs: &[git::RefString]) -> Result<Vec<&'static str>, String> {
         let rid = self.repo.id();
         let mut cache = self.db.clone();
         let mut issues = cob::store::Store::<Issue, _>::open(&self.repo).map_err(|e| e.to_string())?;
         let mut patches = cob::store::Store::<Patch, _>::open(&self.repo).map_err(|e| e.to_string())?;
+        let mut branches = vec![];
         for name in refs {
             match name.to_namespaced() {
                 Some(name) => {
@@ -606,23 +609,29 @@ impl Sys {
                         continue;
                     };
                     if identifier.is_issue() {
-                        update_or_remove(&mut issues, &mut cache, &rid, identifier)?;
+                        branches.push(update_or_remove(&mut issues, &mut cache, &rid, identifier)?);
                     } else if identifier.is_patch() {
-                        update_or_remove(&mut patches, &mut cache, &rid, identifier)?;
+                        branches.push(update_or_remove(&mut patches, &mut cache, &rid, identifier)?);
                     } else {
+                        // Unknown COB, don't cache.
                         continue;
                     }
                 }
                 None => continue,
             }
         }
-        Ok(())
+        Ok(branches)
     }
 
-    fn fetched(&self, type_name: &cob::TypeName, id: &ObjectId) -> Result<(), String> {
+    /// The remote peer's ref of this object was created / updated / deleted by a fetch.
+    fn fetched(&self, type_name: &cob::TypeName, id: &ObjectId) -> OpResult {
         let name = git::refs::storage::cob(self.bob.public_key(), type_name, id);
         let name = git::RefString::try_from(name.as_str().to_owned()).map_err(|e| e.to_string())?;
-        self.cache_cobs(&[name])
+        let branches = self.cache_cobs(&[name])?;
+        if branches.len() != 1 {
+            machinery(&format!("cache_cobs transcription did not recognise the COB ref of {type_name}/{id}"));
+        }
+        Ok(format!("ok,{}", branches[0]))
     }
 
     // -- operations --------------------------------------------------------------------------
@@ -646,19 +655,22 @@ impl Sys {
             }
             Via::Fetched => {
                 let mut c = self.direct_patches();
-                let id = c.create(&title, "patch description", MergeTarget::Delegates, t.base, t.head, &[], &self.bob).map(|pm| pm.id).map_err(|e| e.to_string())?;
-                self.fetched(&patch::TYPENAME, &id)?;
-                id
+                let r = c.create(&title, "patch description", MergeTarget::Delegates, t.base, t.head, &[], &self.bob);
+                r.map(|pm| pm.id).map_err(|e| e.to_string())?
             }
         };
         self.patches.push(id);
         self.note(*id, "patch");
-        Ok("ok".into())
+        match via {
+            Via::Local => Ok("ok".into()),
+            Via::Fetched => self.fetched(&patch::TYPENAME, &id),
+        }
     }
 
     fn patch_op(&mut self, via: Via, slot: u8, ev: &Ev) -> OpResult {
         let Some((id, cur)) = self.patch_now(slot) else { return Err("no-such-object".into()) };
         let me = self.signer(via).clone();
+        let mut label = "ok".to_string();
         let notes = match via {
             Via::Local => {
                 let mut c = self.cached_patches();
@@ -671,26 +683,31 @@ impl Sys {
                 let n = apply_patch_op(&mut pm, &cur, ev, &me)?;
                 drop(pm);
                 drop(c);
-                self.fetched(&patch::TYPENAME, &id)?;
+                for (oid, kind) in &n {
+                    self.note(*oid, kind);
+                }
+                label = self.fetched(&patch::TYPENAME, &id)?;
                 n
             }
         };
         for (oid, kind) in notes {
             self.note(oid, kind);
         }
-        Ok("ok".into())
+        Ok(label)
     }
 
     fn remove_patch(&mut self, via: Via, slot: u8) -> OpResult {
         let Some(id) = self.patches.get(slot as usize).copied() else { return Err("no-such-object".into()) };
         match via {
-            Via::Local => self.cached_patches().remove(&id, &self.alice).map_err(|e| e.to_string())?,
+            Via::Local => {
+                self.cached_patches().remove(&id, &self.alice).map_err(|e| e.to_string())?;
+                Ok("ok".into())
+            }
             Via::Fetched => {
                 self.direct_patches().remove(&id, &self.bob).map_err(|e| e.to_string())?;
-                self.fetched(&patch::TYPENAME, &id)?;
+                self.fetched(&patch::TYPENAME, &id)
             }
         }
-        Ok("ok".into())
     }
 
     fn create_issue(&mut self, via: Via) -> OpResult {
@@ -698,23 +715,27 @@ impl Sys {
         let id = match via {
             Via::Local => {
                 let mut c = self.cached_issues();
-                c.create(&title, "issue description", &[], &[], no_embeds(), &self.alice).map(|im| *im.id()).map_err(|e| e.to_string())?
+                let r = c.create(&title, "issue description", &[], &[], no_embeds(), &self.alice);
+                r.map(|im| *im.id()).map_err(|e| e.to_string())?
             }
             Via::Fetched => {
                 let mut c = self.direct_issues();
-                let id = c.create(&title, "issue description", &[], &[], no_embeds(), &self.bob).map(|im| *im.id()).map_err(|e| e.to_string())?;
-                self.fetched(&issue::TYPENAME, &id)?;
-                id
+                let r = c.create(&title, "issue description", &[], &[], no_embeds(), &self.bob);
+                r.map(|im| *im.id()).map_err(|e| e.to_string())?
             }
         };
         self.issues.push(id);
         self.note(*id, "issue");
-        Ok("ok".into())
+        match via {
+            Via::Local => Ok("ok".into()),
+            Via::Fetched => self.fetched(&issue::TYPENAME, &id),
+        }
     }
 
     fn issue_op(&mut self, via: Via, slot: u8, ev: &Ev) -> OpResult {
         let Some((id, cur)) = self.issue_now(slot) else { return Err("no-such-object".into()) };
         let me = self.signer(via).clone();
+        let mut label = "ok".to_string();
         let notes = match via {
             Via::Local => {
                 let mut c = self.cached_issues();
@@ -727,26 +748,31 @@ impl Sys {
                 let n = apply_issue_op(&mut im, &cur, ev, &me)?;
                 drop(im);
                 drop(c);
-                self.fetched(&issue::TYPENAME, &id)?;
+                for (oid, kind) in &n {
+                    self.note(*oid, kind);
+                }
+                label = self.fetched(&issue::TYPENAME, &id)?;
                 n
             }
         };
         for (oid, kind) in notes {
             self.note(oid, kind);
         }
-        Ok("ok".into())
+        Ok(label)
     }
 
     fn remove_issue(&mut self, via: Via, slot: u8) -> OpResult {
         let Some(id) = self.issues.get(slot as usize).copied() else { return Err("no-such-object".into()) };
         match via {
-            Via::Local => self.cached_issues().remove(&id, &self.alice).map_err(|e| e.to_string())?,
+            Via::Local => {
+                self.cached_issues().remove(&id, &self.alice).map_err(|e| e.to_string())?;
+                Ok("ok".into())
+            }
             Via::Fetched => {
                 self.direct_issues().remove(&id, &self.bob).map_err(|e| e.to_string())?;
-                self.fetched(&issue::TYPENAME, &id)?;
+                self.fetched(&issue::TYPENAME, &id)
             }
         }
-        Ok("ok".into())
     }
 
     fn apply(&mut self, ev: &Ev) -> OpResult {
@@ -765,7 +791,7 @@ impl Sys {
 
     // -- the oracle --------------------------------------------------------------------------
 
-    fn compare(&self, after: &str) -> (Vec<Violation>, u64) {
+    fn compare(&self, after: &str) -> Vec<Violation> {
         let ids: Vec<git::Oid> = self.ids.keys().copied().collect();
         let kinds: Vec<&'static str> = self.ids.values().copied().collect();
         let mut cmp = Cmp { hist: BTreeMap::new(), violations: vec![], comparisons: 0, ctx: after, content_differs: false };
@@ -805,10 +831,12 @@ impl Sys {
         }
         COMPARISONS.fetch_add(cmp.comparisons, Ordering::Relaxed);
         CHECKED_STEPS.fetch_add(1, Ordering::Relaxed);
-        (cmp.violations, cmp.comparisons)
+        cmp.violations
     }
 
-    fn should_check(&self) -> bool {
+    /// Is this the first time the current history is executed in this process? (Replays of stored
+    /// histories re-apply the operations but do not repeat the comparison.)
+    fn first_execution(&self) -> bool {
         if CHECK_ALL.load(Ordering::Relaxed) {
             return true;
         }
@@ -817,22 +845,27 @@ impl Sys {
     }
 }
 
-/// Transcription of `update_or_remove` in radicle-node/src/worker/fetch.rs.
-fn update_or_remove<R, C, T>(store: &mut cob::store::Store<T, R>, cache: &mut C, rid: &RepoId, tid: TypedId) -> Result<(), String>
+/// Transcription of `update_or_remove` in radicle-node/src/worker/fetch.rs; additionally returns
+/// which branch was taken (for the outcome histogram).
+fn update_or_remove<R, C, T>(store: &mut cob::store::Store<T, R>, cache: &mut C, rid: &RepoId, tid: TypedId) -> Result<&'static str, String>
 where
     R: cob::Store + ReadRepository,
     T: cob::Evaluate<R> + cob::store::Cob + cob::store::CobWithType,
     T::Action: Serialize,
     C: cache::Update<T> + cache::Remove<T>,
 {
-    match store.get(&tid.id) {
+    let branch = match store.get(&tid.id) {
         Ok(Some(obj)) => {
-            return cache.update(rid, &tid.id, &obj).map(|_| ()).map_err(|e| format!("cache update {tid}: {e}"));
+            // Object loaded correctly, update cache.
+            return cache.update(rid, &tid.id, &obj).map(|_| "cache-update").map_err(|e| format!("cache update {tid}: {e}"));
         }
-        Ok(None) => {}
-        Err(_) => {}
-    }
-    cache::Remove::<T>::remove(cache, &tid.id).map(|_| ()).map_err(|e| format!("cache remove {tid}: {e}"))
+        // Object was not found. Fall-through.
+        Ok(None) => "cache-remove",
+        // Object was found, but failed to load. Fall-through.
+        Err(_) => "cache-remove(load-error)",
+    };
+    // The object has either been removed entirely from the repository, or it failed to load.
+    cache::Remove::<T>::remove(cache, &tid.id).map(|_| branch).map_err(|e| format!("cache remove {tid}: {e}"))
 }
 
 type Notes = Vec<(git::Oid, &'static str)>;
@@ -1041,9 +1074,23 @@ impl System for Sys {
         evs
     }
 
+    /// Departures from the base scenario (one local patch, one local issue, local operations):
+    /// every fetched operation and every creation of a second object of a type.
+    fn is_deviation(&self, ev: &Ev) -> bool {
+        match ev {
+            Ev::PatchCreate(Via::Fetched) | Ev::IssueCreate(Via::Fetched) => true,
+            Ev::Revision(Via::Fetched, _) | Ev::Review(Via::Fetched, _) | Ev::RevComment(Via::Fetched, _) => true,
+            Ev::PatchRemove(Via::Fetched, _) | Ev::IssueComment(Via::Fetched, _) | Ev::IssueRemove(Via::Fetched, _) => true,
+            Ev::PatchCreate(Via::Local) | Ev::PatchDraft => !self.patches.is_empty(),
+            Ev::IssueCreate(Via::Local) => !self.issues.is_empty(),
+            _ => false,
+        }
+    }
+
     fn step(&mut self, ev: &Ev) -> StepOut {
         let t0 = Instant::now();
         self.hist.push(ev.clone());
+        let first_time = self.first_execution();
         // A panic of the code under test while applying an operation propagates to the engine
         // (violation with the panic site); panics inside queries are observations (see `guard`).
         let res = self.apply(ev);
@@ -1057,11 +1104,16 @@ impl System for Sys {
             }
         };
         let mut out = StepOut::ok(label);
-        if self.should_check() {
+        if first_time && !NO_COMPARE.load(Ordering::Relaxed) {
             let t1 = Instant::now();
-            let (vs, _) = self.compare(&ev.name());
+            out.violations = self.compare(&ev.name());
             CHECK_NS.fetch_add(t1.elapsed().as_nanos() as u64, Ordering::Relaxed);
-            out.violations = vs;
+        }
+        if res.is_err() {
+            // A refused operation wrote nothing: the engine sees an unchanged canonical key and
+            // may hand this very object to the next event of the same node, so the refused
+            // event must not stay in the history that identifies later executions.
+            self.hist.pop();
         }
         out
     }
@@ -1116,7 +1168,12 @@ fn main() {
     if std::env::var_os("C09_CHECK_ALL").is_some() || ctx.replay.is_some() {
         CHECK_ALL.store(true, Ordering::Relaxed);
     }
-    let depth: usize = std::env::var("C09_DEPTH").ok().and_then(|s| s.parse().ok()).unwrap_or(if thorough { 6 } else { 4 });
+    if std::env::var_os("C09_NO_COMPARE").is_some() {
+        NO_COMPARE.store(true, Ordering::Relaxed);
+    }
+    let envn = |k: &str| std::env::var(k).ok().and_then(|s| s.parse::<usize>().ok());
+    let depth: usize = envn("C09_DEPTH").unwrap_or(if thorough { 5 } else { 4 });
+    let devs: usize = envn("C09_DEVS").unwrap_or(1);
     let caps = Caps { patches: 2, issues: 2, revisions: 3, rev_comments: 2, review_comments: 1, issue_comments: 3 };
     let _ = CAPS.set(caps);
 
@@ -1139,18 +1196,51 @@ fn main() {
         ctx.finish_replay(vs);
     }
 
-    let res = explore::explore("C09", Sys::new, Bounds::new(depth, 0).wall_secs(if thorough { 280 } else { 36 }));
+    // Thorough runs two explorations over the same alphabet: first every history of length <= 4
+    // with no deviation limit (the whole alphabet), then length <= `depth` with at most `devs`
+    // deviations. Histories already compared in the first pass are only re-applied in the second.
+    let mut first_pass: Option<serde_json::Map<String, Value>> = None;
+    let mut carried = mcx::report::Violations::default();
+    let mut first_exhaustive = true;
+    if thorough && std::env::var_os("C09_SINGLE_PASS").is_none() {
+        let d0 = depth.min(4);
+        let r0 = explore::explore("C09", Sys::new, Bounds::new(d0, d0).wall_secs(120));
+        let mut m = serde_json::Map::new();
+        m.insert("bounds".into(), json!({"depth": d0, "deviation_budget": "unlimited"}));
+        m.insert("states".into(), json!(r0.states));
+        m.insert("transitions".into(), json!(r0.transitions));
+        m.insert("completed_depth".into(), json!(r0.completed_depth));
+        m.insert("exhaustive".into(), json!(r0.exhaustive));
+        m.insert("frontier_sizes".into(), json!(r0.frontier_sizes));
+        m.insert("outcome_histogram".into(), json!(r0.outcomes));
+        m.insert("violating_instances".into(), json!(r0.violations.total()));
+        first_exhaustive = r0.exhaustive;
+        carried = r0.violations;
+        first_pass = Some(m);
+    }
+    let left = (if thorough { 285u64 } else { 36 }).saturating_sub(ctx.started.elapsed().as_secs()).max(5);
+    let mut res = explore::explore("C09", Sys::new, Bounds::new(depth, devs).wall_secs(left));
     cleanup();
+    if NO_COMPARE.load(Ordering::Relaxed) {
+        eprintln!("C09_NO_COMPARE: states={} transitions={} frontier={:?} outcomes={}", res.states, res.transitions, res.frontier_sizes, res.outcomes.len());
+        machinery("comparisons were disabled (C09_NO_COMPARE); this run decides nothing");
+    }
+    res.violations.merge(carried);
+    res.exhaustive &= first_exhaustive;
 
     let qh = QUERY_HIST.lock().unwrap().clone();
     let mism: BTreeMap<&String, &u64> = qh.iter().filter(|(k, _)| k.ends_with("MISMATCH")).collect();
     let per = |ns: &AtomicU64, n: u64| if n == 0 { 0.0 } else { (ns.load(Ordering::Relaxed) as f64 / n as f64 / 1e4).round() / 100.0 };
     let mut cov = res.coverage(
-        "breadth-first over histories of the alphabet (local write-through operations and fetched operations followed by cache_cobs) on a real \
+        "breadth-first over histories of the alphabet, bounded by depth and by a budget of deviations (a deviation is a fetched operation or the creation of a \
+         second patch / second issue); thorough first explores depth 4 with no deviation limit (`full_alphabet_pass`). Histories consist of local write-through operations and fetched operations followed by cache_cobs, applied to a real \
          repository copied from one template; a state = (all COB refs of all namespaces, all cache rows, slot and identifier bookkeeping); every distinct \
          history is compared once, right after its last operation, on every query for every identifier ever created plus one unknown id and every status",
     );
     cov.insert("caps".into(), json!({"patches": caps.patches, "issues": caps.issues, "revisions_per_patch": caps.revisions, "comments_per_revision": caps.rev_comments, "comments_per_review": caps.review_comments, "comments_per_issue": caps.issue_comments}));
+    if let Some(m) = first_pass {
+        cov.insert("full_alphabet_pass".into(), Value::Object(m));
+    }
     cov.insert("query_histogram".into(), json!(qh));
     cov.insert("query_mismatch_classes".into(), json!(mism));
     cov.insert("query_comparisons".into(), json!(COMPARISONS.load(Ordering::Relaxed)));
